@@ -170,8 +170,10 @@ DeclOut(x) ==
          IN  Flatten([o \in 1..x.outer |-> <<60>> \o inner \o IntText(o) \o <<62>>])
 
 \* --------------------------------------------------------------- machine
-Init == \E x \in Cases : c = x /\ st = InitSt(ProgOf(x), EnvOf(EnvOf2(x)), Sink0, Cx0)
-Next == st.status = "run" /\ st' = Step(Cx0, st) /\ c' = c
+\* maps are explored in key order; the implementation may use any order (TraceRender: anyorder)
+CxM == [Cx0 EXCEPT !.perm = <<1, 2, 3>>]
+Init == \E x \in Cases : c = x /\ st = InitSt(ProgOf(x), EnvOf(EnvOf2(x)), Sink0, CxM)
+Next == st.status = "run" /\ st' = Step(CxM, st) /\ c' = c
 Spec == Init /\ [][Next]_vars
 
 \* ------------------------------------------------------------ invariants
@@ -188,14 +190,14 @@ ForloopConsistent ==
     LET j == CHOOSE j \in LoopFrames : \A i \in LoopFrames : i <= j
         lf == st.k[j]
     IN  lf.phase = "after" /\ Len(st.k) > j =>
-          /\ Lookup(st.env, B_forloop) = ForloopV(lf.i, Len(lf.items))
-          /\ Lookup(st.env, lf.node.var) = lf.items[lf.i]
+          /\ Same(Lookup(st.env, B_forloop), ForloopV(lf.i, Len(lf.items)))
+          /\ Same(Lookup(st.env, lf.node.var), lf.items[lf.i])
 
 \* C12: when no loop is running the loop variables have their outer values
 RestoredOutside ==
   LoopFrames = {} /\ st.status \in {"run", "ok"} =>
-    /\ Lookup(st.env, B_forloop) = Nil
-    /\ Lookup(st.env, X) = Lookup(EnvOf(EnvOf2(c)), X)
+    /\ IsNil(Lookup(st.env, B_forloop))
+    /\ Same(Lookup(st.env, X), Lookup(EnvOf(EnvOf2(c)), X))
 
 \* the loop never runs more iterations than the collection has elements
 StepBound == st.steps <= 40 * (L + 3) * 4
@@ -211,5 +213,6 @@ IdOf(x) ==
     [] x.g = "nest" -> "nest-" \o ToString(x.outer) \o "-" \o ToString(x.inner) \o "-" \o x.sig \o "-" \o ToString(x.at)
 
 EmitCase == st.status # "run" =>
-          PrintT(ToJson([id |-> IdOf(c), kind |-> "render", prog |-> ProgOf(c), env |-> EnvOf2(c)]))
+          PrintT(ToJson([id |-> IdOf(c), kind |-> "render", prog |-> ProgOf(c), env |-> EnvOf2(c),
+                         anyorder |-> IF c.g = "coll" /\ c.coll = "map3" THEN 3 ELSE 0]))
 =============================================================================
